@@ -10,7 +10,8 @@ def repl(m):
     pid = m.group(1)
     if pid not in rows: return m.group(0)
     secs, runs, checks, execs = rows[pid]
-    return f"| {pid} quick | {runs:,} runs, {checks:,} checks, {execs:,} executions of real code: ≈ {secs} s wall (including cargo finding both profiles up to date) |".replace(',', ' ')
+    n = lambda x: f"{x:,}".replace(',', ' ')
+    return f"| {pid} quick | {n(runs)} runs, {n(checks)} checks, {n(execs)} executions of real code: ≈ {secs} s wall (including cargo finding both profiles up to date) |"
 s = re.sub(r'^\| (C\d\d) quick[^\n]*\|$', repl, s, flags=re.M)
 open(p, 'w').write(s)
 print('updated', sorted(rows))
